@@ -247,16 +247,21 @@ class LDMService:
             tuple of ordered tuples of data objects.
         """
 
-        def build_key(item):
-            return tuple(
-                Utils.get_nested(item, Utils.find_attribute(order.attribute, item))
-                for order in orders
-            )
+        def build_key(order):
+            def key(item):
+                return Utils.get_nested(item, Utils.find_attribute(order.attribute, item))
+            return key
 
-        reverse = any(
-            order.ordering_direction == OrderingDirection.DESCENDING for order in orders
-        )
-        return (tuple(sorted(search_results, key=build_key, reverse=reverse)),)
+        ordered = search_results
+        for order in reversed(orders):
+            key = build_key(order)
+            with_value = [item for item in ordered if key(item) is not None]
+            without_value = [item for item in ordered if key(item) is None]
+            ordered = sorted(
+                with_value, key=key,
+                reverse=order.ordering_direction == OrderingDirection.DESCENDING,
+            ) + without_value
+        return (tuple(ordered),)
 
     def add_provider_data(self, data: AddDataProviderReq) -> int | None:
         """
